@@ -207,6 +207,10 @@ func TestC14(t *testing.T) {
 						synctest.Wait()
 						rep.Executions++
 						rep.States++
+						rep.Transitions++ // one request handled by the server
+						if rep.Executions%1499 == 1 {
+							rep.Sample(c14Case{Field: field, Value: x, Allow: allow, Request: q}, 6)
+						}
 						if strings.Contains(x, "..") {
 							rep.Nontrivial++
 						}
